@@ -275,6 +275,14 @@ def _support():
                     tail=['<support name="%s" value="1"/>' % n for n in names])
 FIX["support"] = _support
 
+# 5d. heterogeneous memory with nested locality: DRAM local to package 0, machine-wide NVM, HBM local to package 1
+# (what the default-nodeset heuristics have to sort out: a node with a larger locality listed before the node that
+# exactly fits the cores left uncovered)
+FIX["hetero"] = lambda: topology(N("Machine", 0, [
+    Pkg(0, [Core(0, [PU(0), PU(1)])], mem=[NUMA(0, subtype="DRAM")]),
+    Pkg(1, [Core(1, [PU(2), PU(3)])], mem=[NUMA(2, mem=1 << 28, subtype="HBM")]),
+], mem=[NUMA(1, mem=1 << 32, subtype="NVM")]))
+
 # 6. I/O tree: host bridge > PCI bridge > PCI devices > OS devices of every type combination
 def _io():
     devs = []
@@ -288,6 +296,16 @@ def _io():
             io=[HostBridge([PCI("0000:80:00.0", cls="0108", io=[OSDev("nvme0n1", 1, infos=[("Size", "1000")]), OSDev("dax0.0", 2)])], bus=(0x80, 0xff))]),
     ], io=[OSDev("orphan", 16)]))
 FIX["io"] = _io
+
+# 6b. I/O below the packages only (the Machine has no I/O child of its own): when a package goes away and its I/O is
+# re-attached (ADAPT_IO), the receiving parent's I/O list is empty
+FIX["io2"] = lambda: topology(N("Machine", 0, [
+    Pkg(0, [Core(0, [PU(0), PU(1)])], mem=[NUMA(0)],
+        io=[HostBridge([PCI("0000:00:02.0", cls="0300", io=[OSDev("card0", 4)]), PCI("0000:00:03.0", io=[OSDev("eth0", 8)])], bus=(0, 0x7f))],
+        misc=[Misc("pkg0-misc")]),
+    Pkg(1, [Core(1, [PU(2), PU(3)])], mem=[NUMA(1)],
+        io=[HostBridge([PCI("0000:80:00.0", cls="0108", io=[OSDev("nvme0n1", 1)])], bus=(0x80, 0xff))]),
+]))
 
 # 7. complete_cpuset != cpuset (offline PUs 6,7; extra node 3 in complete_nodeset), disallowed PU 1 and node 1
 def _disallowed():
